@@ -243,7 +243,7 @@ CHECKS["C20"] = {
          "cover": ["append-ok"]},
         {"name": "cycle", "pkg": "internal/state", "pkgname": "state", "entry": "VerifC20Cycle",
          "files": ["zz_verif_c20.go", "zz_verif_c17.go"] + STATE_FILES, "with": ["verifdb"], "gen_stubs": [TX_STUB],
-         "params": {"quick": grid(k=[2, 3], faults=[2]), "thorough": grid(k=[4], faults=[2, 3])},
+         "params": {"quick": grid(k=[2, 3], faults=[2], drafts=[0]) + grid(k=[2], faults=[2], drafts=[1]), "thorough": grid(k=[4], faults=[2, 3], drafts=[0]) + grid(k=[3], faults=[2], drafts=[1])},
          "cover": ["cycle-append-ok", "cycle-append-refused", "cycle-moved-out"]},
         {"name": "protected", "pkg": "internal/state", "pkgname": "state", "entry": "VerifC20Protected",
          "files": ["zz_verif_c20.go", "zz_verif_c17.go"] + STATE_FILES, "with": ["verifdb"], "gen_stubs": [TX_STUB],
